@@ -367,10 +367,19 @@ Definition respond_critical (path_info : option str) (debug : bool) (x : exc) (t
 
 (* one request as far as the framework's error responses depend on it *)
 Record request := mkReq {
-  q_kind : kind; q_exc : exc; q_tb : option str; q_url : str; q_accept : option str; q_debug : bool }.
+  q_kind : kind; q_exc : exc; q_tb : option str; q_url : str; q_accept : option str; q_debug : bool;
+  q_head : bool (* REQUEST_METHOD == 'HEAD' *) }.
+
+(* ombott.py wsgi: a HEAD request gets status and headers of the error, and no body
+   (out = [] on the normal path, return [] on the last-resort path) *)
+Definition drop_body (head : bool) (r : response) : response :=
+  match r with
+  | Resp st ct b => Resp st ct (if head then [] else b)
+  | KeyErr => KeyErr
+  end.
 
 Definition respond_req (q : request) : response :=
-  respond_error (q_kind q) (q_exc q) (q_tb q) (q_url q) (q_accept q) (q_debug q).
+  drop_body (q_head q) (respond_error (q_kind q) (q_exc q) (q_tb q) (q_url q) (q_accept q) (q_debug q)).
 
 (* several requests answered one after the other by ONE application object: the
    error handlers keep nothing from one request to the next *)
@@ -436,7 +445,7 @@ Definition dec_request (r : list Z) : option (request * list Z) :=
         match dec_str r3 with
         | Some (url, r4) =>
           match dec_opt_str r4 with
-          | Some (acc, dbg :: r5) => Some (mkReq k x tb url acc (negb (Z.eqb dbg 0)), r5)
+          | Some (acc, dbg :: hd :: r5) => Some (mkReq k x tb url acc (negb (Z.eqb dbg 0)) (negb (Z.eqb hd 0)), r5)
           | _ => None
           end
         | None => None
@@ -453,8 +462,8 @@ Definition dec_request (r : list Z) : option (request * list Z) :=
 Definition table_of (nonprintable : list N) (c : N) : bool := negb (existsb (N.eqb c) nonprintable).
 
 (* input: tag :: nonprintable code points (len-prefixed) :: payload
-     tag 0: kind ; exc ; traceback (opt) ; url ; accept (opt) ; debug      -> response of a framework error
-     tag 1: path_info (opt) ; debug ; exc ; traceback                      -> last-resort page
+     tag 0: kind ; exc ; traceback (opt) ; url ; accept (opt) ; debug ; head -> response of a framework error
+     tag 1: path_info (opt) ; debug ; exc ; traceback ; head               -> last-resort page
      tag 2: s -> html.escape(s)          tag 3: s -> common_helpers.html_escape(s)
      tag 4: s -> repr(s)                 tag 5: s -> json.dumps(s)
      tag 6: text -> parse_json_obj
@@ -482,7 +491,9 @@ Definition corr_C20 (inp : list Z) : list Z :=
           match dec_exc r1 with
           | Some (x, r2) =>
             match dec_str r2 with
-            | Some (tb, _) => enc_response (respond_critical isp p (negb (Z.eqb dbg 0)) x tb)
+            | Some (tb, r3) =>
+              let head := match r3 with h :: _ => negb (Z.eqb h 0) | [] => false end in
+              enc_response (drop_body head (respond_critical isp p (negb (Z.eqb dbg 0)) x tb))
             | None => bad_input
             end
           | None => bad_input
